@@ -23,6 +23,7 @@ import (
 	"fmt"
 	"math/rand"
 	"net/url"
+	"runtime/debug"
 	"strings"
 	"testing"
 
@@ -30,6 +31,25 @@ import (
 
 	"verif/internal/mon"
 )
+
+// stack is the panicking goroutine's stack, bounded for the replay file.
+func stack() string {
+	b := debug.Stack()
+	if len(b) > 4000 {
+		b = b[:4000]
+	}
+	return string(b)
+}
+
+// panicKey is the narrow class of a panic: its message without operands
+// ("panic-runtime-error-slice-bounds-out-of-range").
+func panicKey(p any) string {
+	m := fmt.Sprint(p)
+	if i := strings.IndexAny(m, "[0123456789\""); i >= 0 {
+		m = m[:i]
+	}
+	return "panic-" + strings.Join(strings.FieldsFunc(m, func(r rune) bool { return !(r >= 'a' && r <= 'z' || r >= 'A' && r <= 'Z') }), "-")
+}
 
 // ---------------------------------------------------------------- generator
 
@@ -305,7 +325,7 @@ func TestC27(t *testing.T) {
 			func() {
 				defer func() {
 					if p := recover(); p != nil {
-						fs = append(fs, finding{"panic", fmt.Sprintf("panic %v on %q", p, s), map[string]any{"input": s, "stack": mon.Stacks()[:4000]}})
+						fs = append(fs, finding{panicKey(p), fmt.Sprintf("panic %v on %q", p, s), map[string]any{"input": s, "stack": stack()}})
 					}
 				}()
 				if rnd.Intn(8) == 0 {
